@@ -361,12 +361,12 @@ Section Sim.
   (* what the decoder family's token-level model stores for an Any payload *)
   Definition raw_dec (v : jvalue) : bytes := DD.canon_json (tokens_of v).
 
-  Notation dv := (dec_value (dsc_dec orc) raw_dec true e).
-  Notation dm := (dec_member (dsc_dec orc) raw_dec true e).
-  Notation dms := (dec_members (dsc_dec orc) raw_dec true e).
-  Notation don := (dec_oneof (dsc_dec orc) raw_dec true e).
-  Notation dit := (dec_items (dsc_dec orc) raw_dec true e).
-  Notation den := (dec_entries (dsc_dec orc) raw_dec true e).
+  Notation dv := (dec_value (dsc_dec orc) raw_dec true None e).
+  Notation dm := (dec_member (dsc_dec orc) raw_dec true None e).
+  Notation dms := (dec_members (dsc_dec orc) raw_dec true None e).
+  Notation don := (dec_oneof (dsc_dec orc) raw_dec true None e).
+  Notation dit := (dec_items (dsc_dec orc) raw_dec true None e).
+  Notation den := (dec_entries (dsc_dec orc) raw_dec true None e).
 
   Definition dokm (ms : list (bytes * jvalue)) : Prop := Forall (fun kv => dok (snd kv)) ms.
   Definition props_ty_ok (props : list property) : Prop := forall p, In p props -> ty_ok (p_ty p) = true.
@@ -454,7 +454,7 @@ Section Sim.
           apply obind_ok in Hx as (vt & Hvt & Hx).
           rewrite (any_sim ms (dok_members _ Hd) None None vt Hvt). cbn [obind].
           destruct (snd vt) as [tn|]; [|discriminate]. destruct (fst vt) as [v|]; [|discriminate].
-          destruct pb; [discriminate|]. injection Hx as <-. reflexivity. }
+          cbv beta iota in Hx. destruct pb; [discriminate|]. injection Hx as <-. reflexivity. }
       assert (HM : SM (S f)).
       { intros d p j m seen r F Hty Hd H HF. rewrite dec_member_S in H. unfold DT.tr_member.
         change DD.max_nesting_depth with max_nesting.
@@ -549,7 +549,7 @@ Section Sim.
      check of the decoder family) is a successful run of tr_decode, same result, with the fuel the
      refinement theorem decode_bytes_tree uses *)
   Theorem decode_tree_sim root J m' :
-    dok J -> decode_tree (dsc_dec orc) raw_dec true e root J = Ok m' ->
+    dok J -> decode_tree (dsc_dec orc) raw_dec true None e root J = Ok m' ->
     DT.tr_decode orc e (S (DT.jsize J)) root J = Ok m'.
   Proof.
     unfold decode_tree, decode_tree_fuel, DT.tr_decode. intros Hd H.
@@ -603,16 +603,16 @@ Section FullDec.
 
   (* C01 over the decoder family's tree decoder (the function that proofs/CodecDecTreeProofs shows the
      token-level decoder model computes on the tokens of J) *)
-  Theorem codec_full_dec root m : rep_root any_inner env root m ->
+  Theorem codec_full_dec root m : rep_root any_inner raw_dec None env root m ->
     exists txt J, encode fmt_float any_inner env root m = Ok txt /\ strict_parse txt = Some J /\
       (DT.jdepth J <= DD.max_scan_depth ->
        exists m', DT.tr_decode orc env (S (DT.jsize J)) root J = Ok m' /\
-                  equiv_root any_inner raw_dec env root m m').
+                  equiv_root any_inner raw_dec None env root m m').
   Proof.
     intros Hrep.
-    destruct (codec_full fmt_float any_inner (dsc_dec orc) env Hflat
+    destruct (codec_full fmt_float any_inner (dsc_dec orc) raw_dec None env Hflat
                 (scalar_rt_dec fmt_float orc Hdecimal Hfloat_ok Hfloat Htime) Hnames Hinner
-                raw_dec raw_dec_nonempty true root m Hrep) as (txt & J & Henc & HJ & Hdec).
+                raw_dec_nonempty true root m Hrep) as (txt & J & Henc & HJ & Hdec).
     exists txt, J. split; [exact Henc|]. split; [exact HJ|]. intros Hd.
     destruct Hdec as (m' & Hm' & Heq).
     { pose proof (jnest_le_jdepth J). unfold DD.max_scan_depth, max_nesting in *. lia. }
@@ -632,4 +632,64 @@ Proof.
   - intros is32 bits Hb Hf. unfold pf_of, inst_orc. cbn [DS.o_float fst snd].
     specialize (H2 is32 bits Hb Hf). unfold inst_parse_float in H2. destruct is32; exact H2.
   - split; [exact H3|]. intros s d Hd. exists 0%Z. unfold inst_orc. cbn [DS.o_decimal]. rewrite Hd. split; [reflexivity|lia].
+Qed.
+
+(* ================================================================ down to the bytes *)
+From J5V.proofs Require Import CodecEncLex.
+
+Section FullBytes.
+  Variable fmt_float : bool -> N -> bytes.
+  Variable any_inner : bytes -> bytes -> outcome bytes.
+  Variable orc : DS.oracles.
+  Variable env : env.
+  Hypothesis Hflat : oneofs_flat env.
+  Hypothesis Hnames : oneof_names_ok env.
+  Hypothesis Hitems : env_items_ok env.
+  Hypothesis Hfloat_ok : float_text_ok fmt_float.
+  Hypothesis Hfloat : orc_float_ok fmt_float orc.
+  Hypothesis Htime : orc_time_ok orc.
+  Hypothesis Hdecimal : orc_decimal_ok orc.
+  Hypothesis Hinner : inner_ok any_inner.
+
+  (* C01 on the encoder's TEXT, through the decoder family's byte-level model (tokenizer Json.lex,
+     token-level decoder CodecDec.decode_bytes — the models tied to encoding/json and decoder.go by
+     that family's correspondence streams) *)
+  Theorem codec_full_bytes root m : rep_root any_inner raw_dec None env root m ->
+    exists txt J, encode fmt_float any_inner env root m = Ok txt /\ txt = print J /\ wfb J = true /\
+      (DT.jdepth J <= DD.max_scan_depth ->
+       exists m', DD.decode_bytes orc env root txt = Ok m' /\ equiv_root any_inner raw_dec None env root m m').
+  Proof.
+    intros Hrep.
+    destruct (encode_total fmt_float any_inner (dsc_dec orc) raw_dec None env Hflat
+                (scalar_rt_dec fmt_float orc Hdecimal Hfloat_ok Hfloat Htime) root m Hrep) as (txt & Henc).
+    destruct (codec_roundtrip_print fmt_float any_inner (dsc_dec orc) raw_dec raw_dec_nonempty true None env Hflat Hnames
+                (scalar_rt_dec fmt_float orc Hdecimal Hfloat_ok Hfloat Htime) Hinner root m txt Hrep Henc)
+      as (J & -> & Hw & Hdec).
+    exists (print J), J. split; [exact Henc|]. split; [reflexivity|]. split; [exact Hw|]. intros Hd.
+    destruct Hdec as (m' & Hm' & Heq).
+    { pose proof (jnest_le_jdepth J). unfold DD.max_scan_depth, max_nesting in *. lia. }
+    exists m'. split; [|exact Heq].
+    rewrite (TP.decode_bytes_tree orc env root (print J) J [] false).
+    - apply decode_tree_sim; assumption.
+    - rewrite app_nil_r. apply lex_print. exact Hw.
+  Qed.
+End FullBytes.
+
+(* ================================================================ the oracle laws from the decoder family's oracle models *)
+From J5V.proofs Require CodecDecTime CodecDecTimeFast CodecDecDecimal.
+
+(* time.Parse: that family models Go's general layout parser (go_time_parse, compared with the real
+   function on every run) and proves that it extends the RFC 3339 fast path *)
+Lemma orc_time_from_model orc : J5V.proofs.CodecDecTime.time_oracle_is_model orc -> orc_time_ok orc.
+Proof. intros H s r Hp. apply (J5V.proofs.CodecDecTimeFast.oracle_extends_fast_path orc H s r Hp). Qed.
+
+(* decimal.NewFromString: the oracle is lib/Decimal (compared with shopspring on every run) *)
+Lemma orc_decimal_from_model orc : J5V.proofs.CodecDecDecimal.decimal_oracle_is_model orc -> orc_decimal_ok orc.
+Proof.
+  intros H s d Hd. unfold dec_normalise in Hd. specialize (H s).
+  destruct (dec_parse s) as [[m e]|]; [|discriminate].
+  unfold Decimal.max_decimal_exponent in Hd.
+  destruct ((e <=? 1000)%Z && (- (1000) <=? e)%Z) eqn:E; [|discriminate]. injection Hd as <-.
+  destruct H as (d & Ho & Hd). exists e. unfold DS.max_decimal_exponent in Hd.
+  rewrite Hd in Ho by lia. split; [exact Ho|lia].
 Qed.
